@@ -2110,6 +2110,11 @@ func init() {
 							w := w
 							jobs = append(jobs, func() string { return waitScenarioAfter(st, api, mode, w) })
 						}
+					} else if st.name == "retry-backoff" && api == "batchown1" && mode == "cancel" {
+						// (also in the quick tier: the one state in which the wait itself grows — a batch in
+						// a back-off sleep of about a second; the SendBatch-level cases of C07 accept either
+						// outcome of the race between the sleep's timer and the cancellation)
+						jobs = append(jobs, func() string { return waitScenarioAfter(st, api, mode, 1200*time.Millisecond) })
 					}
 				}
 			}
